@@ -23,7 +23,22 @@ PARSE_TIME = {"unterminated-string", "unterminated-bracket", "unterminated-brack
               "text-after-command-on-same-line", "identifier-separated-from-paren"}
 
 
+PLAIN = '''# a module that only sets variables and includes others: nothing here gets an entry
+include_guard(GLOBAL)
+set(PLAIN_SOURCES a.cpp "b c.cpp" [[d.cpp]] ${MORE})   # trailing comment
+list(APPEND PLAIN_SOURCES e.cpp)
+find_package(Threads REQUIRED COMPONENTS (x AND y))
+include("${CMAKE_CURRENT_LIST_DIR}/other.cmake")
+if(WIN32 AND (NOT MSVC))
+  message(STATUS "multi
+line \\; text")
+endif()
+'''
+
+
 def base_module(seed, tier, j):
+    if j % 4 == 3:
+        return PLAIN
     rng = case_rng("C06-mod", seed, tier, j)
     b = Builder(rng, p_doc=0.5, max_depth=2, max_items=4, allow_dangling=False, hostile_names=False,
                 kinds=["function", "macro", "option", "set", "ct_add_test", "cpp_class", "generic", "plain", "block"])
